@@ -1,6 +1,7 @@
 import CJ.Drv.Loop
 import CJ.Drv.RW
-/-! Driver for C13: the RWMutex model over the regenerated lock programs. -/
+import CJ.Drv.ReloadPath
+/-! Driver for C13: the RWMutex model over the regenerated lock programs; the reload goroutine's rounds. -/
 open CJ.Drv
 
 def main : IO Unit := runDriver fun
@@ -10,4 +11,5 @@ def main : IO Unit := runDriver fun
   | "rwevents" :: args => RW.handle "rwevents" args
   | "rwrefuse" :: args => RW.handle "rwrefuse" args
   | "rwrefsched" :: args => RW.handle "rwrefsched" args
+  | "gate" :: args => ReloadPath.handle args
   | _ => none
